@@ -65,8 +65,29 @@ def list_tag(ctx):
         rc = Reach(facts, body, Evaluator(facts, bool_atom=discr_atom_of_param(1), assumption={'variant': vn.index(v)}))
         vals = [strip_conv(w.val) for (bb, si), w in it.ret_assigns.items() if bb in rc.reachable]
         res[v] = vals
-    ins_ok = len(res['Insert']) == 1 and is_call(res['Insert'][0], 'value') and param_path(res['Insert'][0][2][0]) == (1, ('Insert.id',))
-    del_ok = len(res['Delete']) == 1 and param_path(res['Delete'][0]) == (1, ('Delete.dot',))
+    def whole_or_rebuilt(t, pred):
+        # the value itself (through conversions / clones), or a Dot rebuilt field by field from it: Dot::new(x.actor, x.counter),
+        # Dot { actor: x.actor, counter: x.counter }
+        if pred(strip_conv(t)):
+            return True
+        t2 = strip_conv(t)
+        dp = None
+        if is_call(t2, 'new', self_adt='Dot') and len(t2[2]) == 2:
+            dp = (t2[2][0], t2[2][1])
+        elif t2[0] == 'agg' and t2[1] in (DOT, 'crdts::dot::OrdDot'):
+            f_ = dict(t2[3])
+            dp = (f_.get('actor'), f_.get('counter')) if 'actor' in f_ and 'counter' in f_ else None
+        if dp is not None:
+            a, c_ = strip_conv(dp[0]), strip_conv(dp[1])
+            return a[0] == 'field' and c_[0] == 'field' and a[2] == 'actor' and c_[2] == 'counter' and versionless(a[1]) == versionless(c_[1]) \
+                and pred(strip_conv(a[1]))
+        return False
+    raw = {}
+    for v in ('Insert', 'Delete'):
+        rc = Reach(facts, body, Evaluator(facts, bool_atom=discr_atom_of_param(1), assumption={'variant': vn.index(v)}))
+        raw[v] = [w.val for (bb, si), w in it.ret_assigns.items() if bb in rc.reachable]
+    ins_ok = len(raw['Insert']) == 1 and whole_or_rebuilt(raw['Insert'][0], lambda x: is_call(x, 'value') and param_path(x[2][0]) == (1, ('Insert.id',)))
+    del_ok = len(raw['Delete']) == 1 and whole_or_rebuilt(raw['Delete'][0], lambda x: param_path(x) == (1, ('Delete.dot',)))
     ctx.check(ins_ok and del_ok, 'Op::dot', body, 'Insert -> id marker, Delete -> dot',
               'Op::dot returns %s' % {k: [fmt(x, 3) for x in v] for k, v in res.items()})
 
@@ -1172,12 +1193,19 @@ def mk_access(ctx):
             return is_call(n, 'get') and len(n[2]) == 2 and param_path(n[2][0]) == (1, ('dag',)) and value_path(drop_lv(n[2][1])) == (2, ())
         return False
     ok = False
-    if rr[0] == 'agg' and rr[1].endswith('Content'):
-        nodes = dict(rr[3]).get('nodes')
-        nv = inline_option_maps(facts, nodes)
-        while nv[0] == 'at':
-            nv = nv[2]
-        alts = list(nv[1]) if nv[0] == 'phi' else [nv]
+    # the Content may be built in one place, or separately per arm (`match dag.get(h) { Some(n) => content(..), None => empty }`)
+    cont_alts = []
+    for ca in (list(rr[1]) if rr[0] == 'phi' else [rr]):
+        while ca[0] in ('lv', 'at'):
+            ca = ca[3] if ca[0] == 'lv' else ca[2]
+        cont_alts.append(ca)
+    if cont_alts and all(ca[0] == 'agg' and ca[1].endswith('Content') for ca in cont_alts):
+        alts = []
+        for ca in cont_alts:
+            nv = inline_option_maps(facts, dict(ca[3]).get('nodes'))
+            while nv[0] == 'at':
+                nv = nv[2]
+            alts += list(nv[1]) if nv[0] == 'phi' else [nv]
         # an alternative that is literally an empty map (not a local that starts empty and is filled in a loop)
         full = [a for a in alts if not (a[0] == 'call' and call_name(a) in ('new', 'default') and not a[2])]
         looked = any(is_call(st, 'get') and len(st[2]) == 2 and param_path(st[2][0]) == (1, ('dag',)) and value_path(drop_lv(st[2][1])) == (2, ())
